@@ -218,17 +218,32 @@ fn lower_sub_ast_to_instrs(
     encode_labels(&mut out, hooks, &label_info, &ctx.emitter)?;
 
     let mut encoding_state = ArgEncodingState::new();
-    let instrs = out.into_iter().filter_map(|x| match x.value {
-        LowerStmt::Instr(instr) => Some({
-            // this is the second time we're using encode_args (first time was to get labels), so suppress warnings
-            let null_emitter = ctx.emitter.with_writer(crate::diagnostic::dev_null());
-            encode_args(&mut encoding_state, hooks, &instr, &ctx.defs, &null_emitter)
-                .expect("we encoded this successfully before!")
-        }),
-        LowerStmt::Label { .. } => None,
-        LowerStmt::RegAlloc { .. } => None,
-        LowerStmt::RegFree { .. } => None,
-    }).collect();
+    let mut instrs = vec![];
+    for x in out {
+        match x.value {
+            LowerStmt::Instr(instr) => {
+                // this is the second time we're using encode_args (first time was to get labels), so suppress warnings
+                let null_emitter = ctx.emitter.with_writer(crate::diagnostic::dev_null());
+                match encode_args(&mut encoding_state, hooks, &instr, &ctx.defs, &null_emitter) {
+                    Ok(raw_instr) => instrs.push(raw_instr),
+                    // Label offsets and times only got their real values just now, so this can be the first time
+                    // that one of them fails a range check.  Encode once more to show the diagnostic.
+                    Err(_) => return Err({
+                        match encode_args(&mut ArgEncodingState::new(), hooks, &instr, &ctx.defs, &ctx.emitter) {
+                            Err(e) => e,
+                            Ok(_) => ctx.emitter.emit(error!(
+                                message("instruction could not be encoded"),
+                                primary(x.span, ""),
+                            )),
+                        }
+                    }),
+                }
+            },
+            LowerStmt::Label { .. } => {},
+            LowerStmt::RegAlloc { .. } => {},
+            LowerStmt::RegFree { .. } => {},
+        }
+    }
     let debug_info = do_debug_info.then(|| debug_info::ScriptLoweringInfo {
         register_info: debug_info_registers.unwrap(),
         offset_info: debug_info_labels.unwrap(),
